@@ -6,13 +6,19 @@
   and prints the handler chain the request runs.  In mode `x` (rich route syntax) only the
   harness's program-versus-flat comparison is meaningful; the model prints the constant answer.
 
-  The tree layer's answer `acc` used here is the simple rule that is exact for the routes the
-  mode-`m` generator writes (static segments, `{p<i>}` placeholders named by position, an
-  optional last segment from its own alphabet): a registration is refused iff the same method
-  already holds the same route text or a route sharing its short form (`/a/?b` also occupies
-  `/a`).  The theorems hold for every `acc`; this instance is checked by the comparison itself.
+  Mode `m`: the tree layer's answer is the REAL one, `DslApp.accReal E` (model parser + model
+  route trees on the router built from the earlier registrations), and every `Q` line is answered
+  END TO END: the request is served by `App.serve` on the application the program declares
+  (`DslApp.appOfProg`, Props/C11App); "reg" iff the chain started is a registration's and the
+  `route` parameter the router handed over is the probed route text, the handler trace is read
+  off the chain machine's event trace.  The Dsl-level answer (look the registration up in the
+  flat list) is computed as well; if the two differ the line carries `dsl=<answer>` and the
+  comparison with the harness fails.  The routes of mode `m` use no regular expression, so the
+  engine is never consulted.  Mode `x` keeps the simple rule `accKeys` (only the harness's
+  program-versus-flat comparison is meaningful there).
 -/
 import Flamego.Model.Dsl
+import Flamego.Model.DslApp
 import Flamego.Driver.Common
 namespace Flamego.Driver.Dsl
 open Flamego.Dsl
@@ -103,12 +109,32 @@ def showErr : Err → String
   | .unknownMethod => "unknownMethod" | .rejected => "rejected" | .emptyMethods => "emptyMethods"
   | .badHandler => "badHandler" | .comboDup => "comboDup" | .user => "user"
 
+/-- the surrounding application of the harness (`dNewFlame`): one `f.Use` middleware that records
+    the parameters and returns, no action, the default not-found handler -/
+def drvBase : App.App := { middleware := [.plain { acts := [] }] }
+
+/-- handler `k` of the harness appends `k` to the trace and returns nothing -/
+def drvEnv : Nat → App.Handler := fun _ => .plain { acts := [] }
+
 structure S where
   stack : List Frame := [{}]
   bad   : Bool := false
   res   : Option Result := none
+  /-- mode m: the application the program declares (`DslApp.appOfProg`, i.e. `appOfRegs` of the
+      registrations `interp (accReal E)` left) and its router `Router.run E app.ops`, built once
+      (`App.serve E app req` is by definition `app.serveWith ((Router.run E app.ops).serve E) req`) -/
+  app   : Option (App.App × Router) := none
 
-def session (args : List String) (lines : List (List String)) : List String :=
+/-- the App-level answer to one probe request: served by `App.serve`; "reg" iff the chain started
+    is a registration's and the `route` parameter the router handed over is the probed route text;
+    the trace is read off the chain machine's event trace (`DslApp.observe`) -/
+def appAnswer (E : Engine) (wrapped : Nat → Bool) (regs : List Reg) (app : App.App) (R : Router)
+    (m : String) (rt req : Bytes) : String :=
+  match DslApp.observe regs (app.serveWith (R.serve E) ⟨m, req, []⟩) app.middleware.length with
+  | some (_, ids, rtp) => if rtp == rt then s!"reg {showIds (runTrace wrapped ids)}" else "none"
+  | none => "none"
+
+def session (E : Engine) (args : List String) (lines : List (List String)) : List String :=
   let model := args.head? == some "m"
   let wrap := (args.drop 1).head? == some "1"
   let wrapped (h : Nat) : Bool := wrap && h % 3 == 2
@@ -130,24 +156,37 @@ def session (args : List String) (lines : List (List String)) : List String :=
       | ["RUN"] =>
         (match s.bad, s.stack, s.res with
          | false, [f], none =>
-           let r := interp accKeys f.body.reverse
+           -- mode m: the REAL acceptance (model parser + model route trees); mode x (rich route
+           -- syntax) is compared program-versus-flat by the harness only
+           let r := if model then interp (DslApp.accReal E) f.body.reverse else interp accKeys f.body.reverse
+           let app :=
+             if model then
+               let a := DslApp.appOfRegs drvEnv drvBase r.regs
+               some (a, Router.run E a.ops)
+             else none
            let out :=
              if model then
                let c := if r.caught.isEmpty then "-" else joinWith "," (r.caught.map showErr)
                s!"run {match r.err with | none => "ok" | some e => showErr e} {c} eq"
              else "run x eq"
-           out :: go { s with res := some r } rest
+           out :: go { s with res := some r, app := app } rest
          | _, _, _ => "bad-program" :: go { s with bad := true } rest)
       | ["Q", m, route, req] =>
         (match s.bad, s.res with
          | false, some r =>
            (match Bytes.ofHex route, Bytes.ofHex req with
-            | some rt, some _ =>
+            | some rt, some rq =>
               if model then
                 let mb := Bytes.ofString m
-                (match r.regs.find? (fun x => x.method == mb && x.path == rt) with
-                 | some x => s!"reg {showIds (runTrace wrapped x.handlers)} eq"
-                 | none => "none eq") :: go s rest
+                -- Dsl level: the registration (method, route text) of the flat list
+                let dslAns := match r.regs.find? (fun x => x.method == mb && x.path == rt) with
+                  | some x => s!"reg {showIds (runTrace wrapped x.handlers)}"
+                  | none => "none"
+                -- App level: the request served by the application the program declares
+                let appAns := match s.app with
+                  | some (a, R) => appAnswer E wrapped r.regs a R m rt rq
+                  | none => "no-app"
+                (if appAns == dslAns then s!"{appAns} eq" else s!"{appAns} eq dsl={dslAns}") :: go s rest
               else "x eq" :: go s rest
             | _, _ => "bad-op" :: go s rest)
          | _, _ => "bad-program" :: go s rest)
